@@ -330,21 +330,32 @@ theorem error_numkeys (union : Bool) (db : Db) (nkb : Bytes) (rest : List Bytes)
   · simp only [if_pos h]
   · simp only [if_neg (by omega : ¬ n < 1), if_pos h2]
 
-/-- fewer than three arguments: arity error, the state is untouched -/
+/-- fewer than three arguments: the state is untouched; the reply is the arity error — unless the connection is in
+subscriber mode, whose refusal comes before any look at the arguments -/
 theorem run_arity_error (inner : Inner) (mode : Mode) (c : Nat) (name : String)
     (h : name = "zunionstore" ∨ name = "zinterstore") (raw : List Bytes) (fs : Bool) (s : Sys)
     (hl : raw.length < 3) :
-    runWith (special inner) mode c (zsig name) raw fs s = (some (.err (strBytes (zsig name).wrongArgs)), s) :=
+    runWith (special inner) mode c (zsig name) raw fs s =
+      (some (if s.refuses c (zsig name) then refusalReply else .err (strBytes (zsig name).wrongArgs)), s) :=
   runWith_zstore_short inner mode c name h raw fs s hl
 
-/-- refused by the gate (subscriber mode): only the destination was looked up -/
+/-- refused by the gate (subscriber mode): the reply is the refusal and the state is LITERALLY unchanged, whatever
+the arguments are (too few, `numkeys` not a number, …) — the destination is not looked up, nothing expires lazily -/
 theorem run_gated (inner : Inner) (mode : Mode) (c : Nat) (name : String)
-    (h : name = "zunionstore" ∨ name = "zinterstore") (dst nkb b0 : Bytes) (bs : List Bytes) (fs : Bool) (s : Sys)
-    (n : Int) (hn : Conv.int nkb = .ok n) (e : Err)
+    (raw : List Bytes) (fs : Bool) (s : Sys) (e : Err)
     (hg : runGate (zsig name) fs ((s.conn c).pubsub > 0) = some e) :
-    runWith (special inner) mode c (zsig name) (dst :: nkb :: b0 :: bs) fs s =
-      (some (.err (strBytes e)), s.setDbS (s.conn c).db ((s.dbAt (s.conn c).db).get dst).1) :=
-  runWith_zstore_gated inner mode c name h dst nkb b0 bs fs s n hn e hg
+    runWith (special inner) mode c (zsig name) raw fs s = (some (.err (strBytes e)), s) :=
+  runWith_zstore_gated inner mode c name raw fs s e hg
+
+/-- the same in terms of the connection: a subscribed connection gets the context error -/
+theorem run_subscribed (inner : Inner) (mode : Mode) (c : Nat) (name : String)
+    (h : name = "zunionstore" ∨ name = "zinterstore") (raw : List Bytes) (fs : Bool) (s : Sys)
+    (hps : (s.conn c).pubsub > 0) :
+    runWith (special inner) mode c (zsig name) raw fs s =
+      (some (.err (strBytes Msgs.BAD_COMMAND_IN_PUBSUB_MSG)), s) := by
+  have hna : (zsig name).name ∉ SigTable.pubsubAllowed := by
+    rcases h with rfl | rfl <;> decide
+  exact runWith_refused _ mode c (zsig name) raw fs (Sys.refuses_eq_true.2 ⟨hps, hna⟩)
 
 /-- NOTIFICATION.  After a successful command every connection that watches `(d, dst)` has its
 `watchNotified` flag set (its next EXEC aborts), whether or not the live entry of `dst` changed; the watch lists
@@ -505,5 +516,14 @@ example : ∃ dbf Z,
 
 -- connection 1 watches the destination: it is flagged
 example : (notifyFn 0 [100] { id := 1, watches := [(0, [100]), (0, [113])] }).watchNotified = true := by decide
+
+-- the hypothesis of `run_gated` / `run_subscribed` holds for a subscribed connection: `ZUNIONSTORE d x a` (numkeys
+-- not a number, expired destination) is answered with the context error and nothing at all changes
+example :
+    runWith (special (fun _ _ => pure none)) {} 1 (zsig "zunionstore") ([101] :: strBytes "x" :: [[97]]) false
+        { exSys with srv := { exSys.srv with conns := [{ id := 1, pubsub := 1 }] } } =
+      (some (.err (strBytes Msgs.BAD_COMMAND_IN_PUBSUB_MSG)),
+        { exSys with srv := { exSys.srv with conns := [{ id := 1, pubsub := 1 }] } }) :=
+  run_gated (fun _ _ => pure none) {} 1 "zunionstore" _ false _ _ (by decide)
 
 end FR.Props.C03s
